@@ -354,6 +354,12 @@ def arr_reshape(eng, st, args, kwargs, line):
     if not isinstance(a, VArr) or len(dims) != 2 or smt.conc_int(a.stride) != 1:
         raise OutOfSubset(f"line {line}: reshape form")
     n0, n1 = (eng.to_int(d, line) for d in dims)
+    if smt.conc_int(n0) == -1 and smt.conc_int(n1) != -1:
+        # reshape(-1, k): the row count is inferred; the length must be a multiple of k
+        eng.oblig(st, f"shape@{line}", z3.And(n1 >= 1, a.n % z3.If(n1 >= 1, n1, 1) == 0), line, label="reshape size (ValueError)")
+        st.assume(n1 >= 1)
+        q, _r = eng.int_divmod(st, a.n, n1, line)
+        n0 = q
     eng.oblig(st, f"shape@{line}", smt.som(n0 * n1) == a.n, line, label="reshape size (ValueError)")
     st.assume(smt.som(n0 * n1) == a.n)
     return val(st, VArr2(a.obj, a.off, n1, z3.IntVal(1), n0, n1))
@@ -506,6 +512,23 @@ def np_roll(eng, st, args, kwargs, line):
     src = z3.If(n > 0, (j - k) % z3.If(n > 0, n, 1), 0)
     el = z3.Select(st.heap[a.obj], eng.arr_index_term(a, src))
     return val(st, new_array(eng, st, [n], meta["kind"], meta.get("dtype"), z3.Lambda([j], el), "roll"))
+
+
+MED1 = z3.Function("med1", z3.ArraySort(INT, REAL), INT, INT, REAL)
+
+
+@model("numpy.median")
+def np_median(eng, st, args, kwargs, line):
+    """np.median(a2d, axis=1): one value per row - med1(contents, first element of the row, row length), uninterpreted"""
+    eng.assume_tag("A-NP")
+    a = args[0]
+    ax = kwargs.get("axis")
+    if isinstance(a, VArr2) and isinstance(ax, VInt) and smt.conc_int(ax.t) == 1 and smt.conc_int(a.s1) == 1 \
+            and st.hmeta[a.obj]["kind"] == "real":
+        j = z3.Int("j!md")
+        el = MED1(st.heap[a.obj], smt.som(a.off + a.s0 * j), a.n1)
+        return val(st, new_array(eng, st, [a.n0], "real", "f8", z3.Lambda([j], el), "median"))
+    raise OutOfSubset(f"line {line}: np.median form")
 
 
 @model("numpy.atleast_1d")
